@@ -15,6 +15,7 @@ sys.setrecursionlimit(100000)     # 1030-leaf content models are right-nested 10
 
 sys.path.insert(0, os.path.join(V.VERIF, "translator"))
 import c07_valid as TV  # noqa
+import c07_dfa as TD  # noqa
 
 FUEL = 3000          # states the model's worklist may create before it gives up (the C++ has no bound)
 NAMES = [0, 1, 2]    # element names used in generated content models (rendered n0, n1, n2)
@@ -142,6 +143,120 @@ def mutate(rng, w, alphabet):
     return w
 
 
+# ---- non-deterministic models whose names recur in every 32-position block ------------------------------------
+def glushkov(t):
+    """python mirror of the position automaton (only used to MEASURE which union strategy buildDFA takes for a
+    generated model; the verdicts come from the extracted model and the Spec)"""
+    labels = []
+    follow = {}
+
+    def go(t):
+        k = t[0]
+        if k == "L":
+            p = len(labels)
+            labels.append(t[1])
+            follow[p] = set()
+            return False, {p}, {p}
+        if k == "S":
+            nul, first, last = True, set(), set()
+            for x in t[1]:
+                n2, f2, l2 = go(x)
+                for q in last:
+                    follow[q] |= f2
+                first = first | f2 if nul else first
+                last = (last | l2) if n2 else l2
+                nul = nul and n2
+            return nul, first, last
+        if k == "C":
+            nul, first, last = False, set(), set()
+            for x in t[1]:
+                n2, f2, l2 = go(x)
+                nul, first, last = nul or n2, first | f2, last | l2
+            return nul, first, last
+        n2, f2, l2 = go(t[1])
+        if k in "TP":
+            for q in l2:
+                follow[q] |= f2
+        return (n2 if k == "P" else True), f2, l2
+    nul, first, last = go(t)
+    eoc = len(labels)
+    for q in last:
+        follow[q].add(eoc)
+    follow[eoc] = set()
+    return labels, follow, first | ({eoc} if nul else set())
+
+
+def union_strategy_profile(t, th, max_states=400):
+    """for every DFA state and every name: does buildDFA take the linear scan over the name's leaves, do those leaves
+    span several words, and are the first and the last of them live in the state"""
+    import math
+    labels, follow, start = glushkov(t)
+    W = th["WORD"]
+    nbits = len(labels) + 1
+    dynamic = nbits > th["CMSTATE_CACHED_INT32_SIZE"] * W
+    chunk = th["CMSTATE_BITFIELD_CHUNK"]
+    byname = {}
+    for p, a in enumerate(labels):
+        byname.setdefault(a, []).append(p)
+    seen, todo = {frozenset(start)}, [frozenset(start)]
+    prof = {"linear": 0, "linear_multiword": 0, "linear_multiword_last_live": 0, "binary": 0, "states": 0}
+    while todo and prof["states"] < max_states:
+        T = todo.pop()
+        prof["states"] += 1
+        for a, L in byname.items():
+            n = len(L)
+            lo, hi = L[0], L[-1]
+            if not dynamic:
+                e = min(hi // W, th["CMSTATE_CACHED_INT32_SIZE"])
+                cnt = sum(1 for q in T if lo // W <= q // W < e)
+            else:
+                arr = (nbits + chunk - 1) // chunk
+                e = min(hi // W, arr)
+                cnt = sum(1 for q in T if lo // W <= q // chunk < e)
+            live = [q for q in L if q in T]
+            if n <= cnt * math.log(n) if n > 1 else False:
+                prof["linear"] += 1
+                if lo // W != hi // W:
+                    prof["linear_multiword"] += 1
+                    if hi in T and len(live) >= 2:
+                        prof["linear_multiword_last_live"] += 1
+            elif live:
+                prof["binary"] += 1
+            nxt = frozenset(x for q in live for x in follow[q])
+            if nxt and nxt not in seen:
+                seen.add(nxt)
+                todo.append(nxt)
+    return prof
+
+
+def block_models(rng, th, thorough):
+    """(shape name, tree): names 0,1,2 recur in every word-sized block of positions and stay live together"""
+    W, cached = th["WORD"], th["CMSTATE_CACHED_INT32_SIZE"]
+    totals = [W + 2, W + 9, 2 * W - 1, 2 * W + 3, 3 * W + 1, cached * W - 2, cached * W + 3, cached * W + 12]
+    if thorough:
+        totals += [W - 1, W, W + 1, 2 * W, 2 * W + 1, cached * W - 1, cached * W, cached * W + 1, 6 * W, 9 * W]
+    out = []
+    L = lambda k: ("L", k)
+    for T in totals:
+        m = T // 2
+        # prefix-sharing alternatives spread over all blocks
+        out.append(("alt2", ("C", [("S", [L(i % 3), L(rng.randrange(6))]) for i in range(m)])))
+        out.append(("alt2-distinct-tails", ("C", [("S", [L(i % 2), L(10 + i)]) for i in range(m)])))
+        out.append(("alt3", ("C", [("S", [L(i % 3), L((i // 3) % 3), L(rng.randrange(5))]) for i in range(T // 3)])))
+        # the reported shape: (a,p)|(c1,d)|...|(ck,d)|(a,q)
+        out.append(("first-last", ("C", [("S", [L(0), L(1)])] + [("S", [L(10 + i), L(2)]) for i in range(m - 2)]
+                                   + [("S", [L(0), L(3)])])))
+        # (a|b|c)?,(a|b|c)?,...  : every suffix of positions is live at once
+        out.append(("opt-choices", ("S", [("O", ("C", [L(0), L(1), L(2)])) for _ in range(T // 3)])))
+        # many distinct optional leaves, then an (a|b)* tail whose names also start the model
+        out.append(("tail", ("S", [("C", [L(0), L(1)])] + [("O", L(10 + j)) for j in range(T - 4)]
+                             + [("T", ("C", [L(0), L(1)]))])))
+        # iterated alternatives
+        out.append(("star-alt", ("T", ("C", [("S", [L(i % 3), L((i + 1 + i // 3) % 3)]) for i in range(m)]))))
+        out.append(("plus-opt-alt", ("P", ("C", [("S", [("O", L(i % 3)), L(3 + i % 2)]) for i in range(m)]))))
+    return out
+
+
 def all_words(alphabet, maxlen):
     out = [[]]
     layer = [[]]
@@ -255,6 +370,28 @@ def gen_cases(ctx):
                 add("wide-mutant", m, tx, d, mutate(rng, w, d[:3] + d[-2:]))
             add("wide-empty", m, tx, d, [])
             add("wide-last", m, tx, d, [n - 1])
+    # -- 5b. non-deterministic models in which the same names recur in every word-sized block of positions and are
+    #        live together (the follow-set union of buildDFA switches strategy on exactly these)
+    th = TD.read()
+    prof_total = {}
+    for shape, t in block_models(rng, th, thorough):
+        m, tx = "K:" + polish(t), text(t)
+        prof = union_strategy_profile(t, th)
+        for k2, v2 in prof.items():
+            prof_total[k2] = prof_total.get(k2, 0) + v2
+        names = sorted({a for a in glushkov(t)[0]})
+        small = [a for a in names if a < 10]
+        ws = [sample_word(rng, t, 3)[:80] for _ in range(10)]
+        for w in ws:
+            add("block-valid", m, tx, names, w)
+            add("block-mutant", m, tx, names, mutate(rng, w, small + names[-2:]))
+            add("block-mutant", m, tx, names, mutate(rng, mutate(rng, w, small), small))
+        for w in all_words(small[:3], 2) + rng.sample(all_words(small[:4], 3), 12):
+            add("block-short", m, tx, names, w)
+        if shape in ("alt2-distinct-tails", "first-last"):
+            for item in t[1]:                          # every alternative once: reaches the last position of each name
+                add("block-each-alt", m, tx, names, [x[1] for x in item[1]])
+    ctx.coverage["union_strategy_profile"] = prof_total
     # -- 6. many parenthesised groups at nesting depth 2: DTDScanner's CONTENTSPEC_DEPTH_LIMIT (1000) is about nesting,
     #       a content model with more than 1000 sibling groups is legal (finding F26)
     for g in ([1000, 1002] if not thorough else [999, 1000, 1001, 1002, 1003, 1500]):
@@ -888,9 +1025,11 @@ def run(ctx):
     ctx.build_lib()
     try:
         codes = TV.generate()
+        ctx.coverage["dfa_thresholds"] = TD.read()
     except Exception as e:
         ctx.note("translator failed: %r" % (e,))
-        ctx.violation("translator", {"what": "translator can no longer read XMLValidityCodes.hpp", "error": repr(e)},
+        ctx.violation("translator", {"what": "translator can no longer read XMLValidityCodes.hpp / the buildDFA union "
+                                     "strategy and CMStateSet constants the generator aims at", "error": repr(e)},
                       no_input=True)
         return
     ok, out, failed = ctx.prove(["Base", "Gen", "C07"],
